@@ -534,13 +534,28 @@ def normalize_fragment(text, encoding='utf-8'):
 
 @functools.lru_cache()
 def is_ascii_compatible_encoding(encoding):
-    '''Return whether the codec encodes ASCII characters as themselves.'''
+    '''Return whether the codec encodes ASCII characters as themselves
+    and other characters with bytes that start outside ASCII.
+
+    Escape sequence based codecs (ISO-2022, HZ) spell other characters
+    with ASCII bytes such as ``/`` which must not end up in a URL.
+    '''
     ascii_text = ''.join(chr(number) for number in range(0x20, 0x7f))
 
     try:
-        return ascii_text.encode(encoding) == ascii_text.encode('ascii')
+        if ascii_text.encode(encoding) != ascii_text.encode('ascii'):
+            return False
     except (LookupError, UnicodeError, TypeError):
         return False
+
+    for char in '\xe9\u044f\u03b1\u3042\u4e2d\ud55c':
+        try:
+            if char.encode(encoding)[0] < 0x80:
+                return False
+        except UnicodeError:
+            pass
+
+    return True
 
 
 def normalize_username(text, encoding='utf-8'):
